@@ -204,7 +204,10 @@ DeviceManagerV0::select(DeviceKind kind, const std::string& name) const
     std::regex re(name.c_str(),
                   std::regex_constants::icase | std::regex_constants::optimize);
     for (const auto& identifier : identifiers_) {
-        if (identifier.identifier_.kind == kind) {
+        // entries whose driver failed to describe them are placeholders, not
+        // devices: never hand them out
+        if (identifier.status_ == Device_Ok &&
+            identifier.identifier_.kind == kind) {
             // regex match for name
             const auto name_match =
               name.empty() ||
